@@ -457,6 +457,8 @@ func (env *SpecEnv) evalCall(e *SExpr) Val {
 			env.fail(e, "no map range loop %d seen yet", ord)
 		}
 		return Val{T: app("select", fc.heapGet(env.st(), key, srt), arg(1).T), Ty: tBool}
+	case "chanclosed": // ghost: has close(ch) been executed
+		return Val{T: app("select", fc.heapGet(env.st(), "$chanclosed", "(Array Int Bool)"), arg(0).T), Ty: tBool}
 	case "sleepers", "woken": // ghost counters of a sync.Cond (number parked / signalled and not yet resumed)
 		key := map[string]string{"sleepers": "$condsleep", "woken": "$condwoken"}[name]
 		var ref string
